@@ -5,6 +5,7 @@ import (
 	"go/ast"
 	"go/token"
 	"go/types"
+	"reflect"
 	"regexp"
 	"strings"
 )
@@ -90,6 +91,8 @@ type VC struct {
 	boxed               map[*types.Var]bool
 	callAssertSeen      map[string]bool
 	ifaceAsserts        []ifaceAssert
+	escapeInfo          map[*types.Var]*escInfo
+	curCall             *ast.CallExpr         // the call being evaluated (for confinement of local slices)
 	typeTagT            map[string]types.Type // tag -> Go type
 	fmtOf               map[string]string     // Sprintf result term -> its constant format string
 	boxedAddr           map[*types.Var]bool   // boxed because the address is taken (or a pointer method is called)
@@ -501,6 +504,175 @@ func namedOf(T types.Type) *types.Named {
 }
 
 // compOfStruct returns the component prefix for fields of the struct type pointed to.
+// confined: the local slice variable v cannot be reached by anybody but this function at the current call: every
+// assignment to it is nil / make / append(v, ...), and every other use that could make its backing array known to
+// someone else (argument of a call, right-hand side of an assignment to something else, return, composite literal,
+// closure) lies textually after the current call and not in a loop around it. The backing array of such a variable is
+// not affected by what a callee does to the heap.
+func (vc *VC) confined(v *types.Var) bool {
+	if vc.fd == nil || vc.fd.Body == nil || vc.curCall == nil || vc.inlineDepth > 0 {
+		return false
+	}
+	if vc.escapeInfo == nil {
+		vc.escapeInfo = vc.computeEscapes()
+	}
+	esc, ok := vc.escapeInfo[v]
+	if !ok || esc.never {
+		return false
+	}
+	p := vc.curCall.Pos()
+	for _, e := range esc.points {
+		if e.pos <= p {
+			return false
+		}
+		// an escape inside a loop that also encloses the call reaches the call on the next iteration
+		for _, l := range esc.loops[e.pos] {
+			if l.Pos() <= p && p < l.End() {
+				return false
+			}
+		}
+	}
+	return true
+}
+
+type escPoint struct{ pos token.Pos }
+type escInfo struct {
+	never  bool // some use rules confinement out altogether
+	points []escPoint
+	loops  map[token.Pos][]ast.Node
+}
+
+func (vc *VC) computeEscapes() map[*types.Var]*escInfo {
+	info := vc.pkg.P.TypesInfo
+	out := map[*types.Var]*escInfo{}
+	get := func(id *ast.Ident) (*types.Var, *escInfo) {
+		v, ok := info.ObjectOf(id).(*types.Var)
+		if !ok || v.IsField() || vc.isGlobal(v) {
+			return nil, nil
+		}
+		if _, isSlice := under(v.Type()).(*types.Slice); !isSlice {
+			return nil, nil
+		}
+		e := out[v]
+		if e == nil {
+			e = &escInfo{loops: map[token.Pos][]ast.Node{}}
+			out[v] = e
+		}
+		return v, e
+	}
+	// parameters and results are known to the caller
+	mark := func(fl *ast.FieldList) {
+		if fl == nil {
+			return
+		}
+		for _, f := range fl.List {
+			for _, n := range f.Names {
+				if _, e := get(n); e != nil {
+					e.never = true
+				}
+			}
+		}
+	}
+	mark(vc.fd.Type.Params)
+	mark(vc.fd.Type.Results)
+	if vc.fd.Recv != nil {
+		mark(vc.fd.Recv)
+	}
+	var loops []ast.Node
+	var lits int
+	var walk func(n ast.Node, safe map[*ast.Ident]bool)
+	walk = func(n ast.Node, safe map[*ast.Ident]bool) {
+		ast.Inspect(n, func(m ast.Node) bool {
+			switch x := m.(type) {
+			case *ast.FuncLit:
+				lits++
+				ast.Inspect(x.Body, func(k ast.Node) bool {
+					if id, ok := k.(*ast.Ident); ok {
+						if _, e := get(id); e != nil {
+							e.never = true
+						}
+					}
+					return true
+				})
+				lits--
+				return false
+			case *ast.ForStmt, *ast.RangeStmt:
+				loops = append(loops, m)
+				if r, ok := x.(*ast.RangeStmt); ok {
+					// `range v` reads v only
+					if id, ok := ast.Unparen(r.X).(*ast.Ident); ok {
+						safe[id] = true
+					}
+				}
+				for _, c := range childrenOf(m) {
+					walk(c, safe)
+				}
+				loops = loops[:len(loops)-1]
+				return false
+			case *ast.AssignStmt:
+				for i, l := range x.Lhs {
+					lid, ok := ast.Unparen(l).(*ast.Ident)
+					if !ok {
+						continue
+					}
+					safe[lid] = true
+					if i < len(x.Rhs) && len(x.Lhs) == len(x.Rhs) {
+						// v = append(v, ...): the first argument is a safe use
+						if ce, ok := ast.Unparen(x.Rhs[i]).(*ast.CallExpr); ok {
+							if fid, ok := ce.Fun.(*ast.Ident); ok && fid.Name == "append" && len(ce.Args) > 0 {
+								if aid, ok := ast.Unparen(ce.Args[0]).(*ast.Ident); ok && info.ObjectOf(aid) == info.ObjectOf(lid) {
+									safe[aid] = true
+								}
+							}
+						}
+					}
+				}
+			case *ast.CallExpr:
+				if fid, ok := x.Fun.(*ast.Ident); ok && (fid.Name == "len" || fid.Name == "cap") && len(x.Args) == 1 {
+					if aid, ok := ast.Unparen(x.Args[0]).(*ast.Ident); ok {
+						safe[aid] = true
+					}
+				}
+			case *ast.IndexExpr:
+				if id, ok := ast.Unparen(x.X).(*ast.Ident); ok {
+					safe[id] = true // element read / write through the variable itself
+				}
+			case *ast.Ident:
+				if safe[x] {
+					return true
+				}
+				if _, e := get(x); e != nil && info.Uses[x] != nil {
+					e.points = append(e.points, escPoint{x.Pos()})
+					e.loops[x.Pos()] = append([]ast.Node(nil), loops...)
+				}
+			}
+			return true
+		})
+	}
+	walk(vc.fd.Body, map[*ast.Ident]bool{})
+	return out
+}
+
+// childrenOf: the direct child nodes of a loop statement (so that the walker can recurse with the loop on its stack).
+func childrenOf(n ast.Node) []ast.Node {
+	var out []ast.Node
+	switch x := n.(type) {
+	case *ast.ForStmt:
+		for _, c := range []ast.Node{x.Init, x.Cond, x.Post, x.Body} {
+			if c != nil && !reflect.ValueOf(c).IsNil() {
+				out = append(out, c)
+			}
+		}
+	case *ast.RangeStmt:
+		for _, c := range []ast.Node{x.Key, x.Value, x.X, x.Body} {
+			if c != nil && !reflect.ValueOf(c).IsNil() {
+				out = append(out, c)
+			}
+		}
+	}
+	return out
+}
+
 // immutableComp: the component is a struct field that a `frame T.f: none` declaration says is never assigned after
 // construction (a whole-module syntactic obligation): no call can change it, so it survives every heap havoc.
 func (vc *VC) immutableComp(comp string) bool {
